@@ -3,6 +3,7 @@ import FeatherModel.Lemmas.CodeWitness
 import FeatherModel.Lemmas.CodeTables
 import FeatherModel.Lemmas.PoolWrite
 import FeatherModel.Lemmas.CodeNoPanic
+import FeatherModel.Lemmas.ClassParse
 
 /-!
 # C02 — the class writer emits a well-formed file denoting exactly the given class
@@ -313,7 +314,42 @@ theorem pool_put_fails {p : PoolWrite.Pool} {e : PoolWrite.Entry} (h : PoolWrite
 
 example : ∃ i p', PoolWrite.put PoolWrite.empty (.long 7) = some (i, p') ∧ p'.count = 3 := ⟨1, _, rfl, rfl⟩
 
-/-! ## 6. Failure: clean errors, and the places where the Rust code panics instead -/
+/-! ## 6. Framing: every count and every `attribute_length` is exact
+
+`Spec/ClassParse.lean` is a parser written from the structure definitions of JVMS §4 that trusts every count and
+length field it reads. It reads back exactly what `Model/ClassWrite.lean` (the framing of `write_attribute`,
+`write_code`, `write_method`, `write`) lays out. -/
+
+/-- a list of attributes: each `attribute_length` is the length of the body that follows -/
+theorem attribute_length_exact (as : List ClassWrite.Attr)
+    (hr : ∀ a ∈ as, a.1 ≤ 65535 ∧ a.2.length ≤ 4294967295) (rest : Bytes) :
+    ClassParse.attrs as.length (ClassWrite.attrsBytes as ++ rest) = some (as, rest) :=
+  ClassParse.attrs_attrsBytes as hr rest
+
+/-- `LineNumberTable` (w = 2) / `LocalVariable(Type)Table` (w = 5) bodies: the count is the number of rows, the body
+ends with the last row -/
+theorem table_attribute_exact (w : Nat) (rows : List (List Nat)) (hn : rows.length ≤ 65535)
+    (hr : ∀ row ∈ rows, row.length = w ∧ ∀ x ∈ row, x ≤ 65535) :
+    ClassParse.table w (ClassWrite.tableBody rows) = some rows :=
+  ClassParse.table_tableBody w rows hn hr
+
+/-- the `Code` attribute: `code_length`, `exception_table_length`, `attributes_count` and the nested lengths are exact -/
+theorem code_attribute_exact (c : ClassWrite.CodeAttr) (h : ClassParse.codeFits c) :
+    ClassParse.code (ClassWrite.codeBody c) = some c :=
+  ClassParse.code_codeBody c h
+
+/-- the whole file: `constant_pool_count` with the two-slot rule, interface / field / method / attribute counts and all
+lengths are exact — the parser consumes the file to the last byte and returns the image that was written.
+`_partial`: attribute bodies other than `Code` and the tables are opaque byte strings here, and the image is tied to
+the Rust writer only for the skeleton class of the correspondence run. -/
+theorem class_file_reads_back_partial (c : ClassWrite.ClassImg) (h : ClassParse.classFits c) :
+    ClassParse.classFile (ClassWrite.classBytes c) = some c :=
+  ClassParse.classFile_classBytes c h
+
+example : ClassParse.code (ClassWrite.codeBody ⟨1, 2, [0xb1], [[0, 1, 0, 0]], [(5, [0, 1, 0, 0, 0, 7])]⟩) =
+    some ⟨1, 2, [0xb1], [[0, 1, 0, 0]], [(5, [0, 1, 0, 0, 0, 7])]⟩ := by decide
+
+/-! ## 7. Failure: clean errors, and the places where the Rust code panics instead -/
 
 /-- **Clean failure.** If the worst-case encoding of the method (every jump in its long form) stays below 65533
 bytes and no `tableswitch` spans more than `i32::MAX` keys, `write_code` never panics: it succeeds or returns the
